@@ -1,6 +1,10 @@
 /-
 Line-protocol driver for C17.
-request : sym <dmax> <entry>,<entry>,…      entry = <hexname>:<K>:<hexlink|->
+request : sym <dmax> [<hist>] <entry>,<entry>,…      entry = <hexname>:<K>:<hexlink|->
+          hist: how the image's config history is written (H valid, E valid with empty-layer entries, N none,
+                S short, G one entry too many, X empty entries + a missing one), optionally followed by t (the
+                image is loaded through FromTarball). The property quantifies over images and depths: the
+                answer does NOT depend on the history or the entry point, so the driver only validates the token.
           K: F file, D directory (with a child file "c"), M missing, X file deleted by layer 1,
              L symlink, Y symlink deleted by layer 1
           the image has two layers: layer 0 holds the entries, layer 1 the whiteouts and a file "keep"
@@ -121,8 +125,16 @@ def classify (es : List Ent) (m0 s0 : List (Key × Node Key)) : String :=
   s!"n{es.length}l{nl}{if differs then "u" else ""}"
 
 def handle (line : String) : String :=
-  match line.splitOn " " with
-  | ["sym", dmax, ents] =>
+  let toks := match line.splitOn " " with
+    | ["sym", dmax, ents] => some (dmax, ents)
+    | ["sym", dmax, hist, ents] =>
+      (match hist.toList with
+       | [m] => if "HENSGX".toList.contains m then some (dmax, ents) else none
+       | [m, 't'] => if "HENSGX".toList.contains m then some (dmax, ents) else none
+       | _ => none)
+    | _ => none
+  match toks with
+  | some (dmax, ents) =>
     match dmax.toNat?, (listOf ents ",").mapM parseEnt with
     | some dmax, some es =>
       if es.any (fun e => !canonical (e.name.splitOn "/")) then "bad-op" else
